@@ -3,6 +3,7 @@ use super::common::*;
 use crate::conv::*;
 use crate::ctx::{catch, hex, Ctx};
 use crate::gen::types::*;
+use crate::gen::values::*;
 use crate::model::coerce::*;
 use crate::model::misc::label_hash;
 use crate::model::wire::*;
@@ -50,6 +51,80 @@ pub fn one_case(ctx: &mut Ctx, rng: &mut Rng, cfg: &TypeCfg, mutate: bool) {
         return;
     };
     let (eenv, ets, kind) = gen_expected(rng, cfg, &wc);
+    judge_case(ctx, rng, wc, eenv, ets, kind, mutate);
+}
+
+/// Small-scope family: wire and expected environments of two mutually referring definitions each, drawn from
+/// the catalogue of C05 (so that they differ in a leaf, an optional field, a function type ...), and a message
+/// of several arguments over the same definitions — plain, below `opt`, and as results of function and
+/// service references — so that one decoder instance answers several related subtype questions in a row.
+fn small_scope_case(ctx: &mut Ctx, rng: &mut Rng) {
+    let (a, b) = (RType::Ref(0), RType::Ref(1));
+    let cat = super::c05::catalogue(&a, &b, true);
+    let wi = [rng.usize(cat.len()), rng.usize(cat.len())];
+    let ei: Vec<usize> = wi.iter().map(|i| if rng.chance(2, 5) { *i } else { rng.usize(cat.len()) }).collect();
+    let wenv = REnv(vec![cat[wi[0]].clone(), cat[wi[1]].clone()]);
+    let eenv = REnv(vec![cat[ei[0]].clone(), cat[ei[1]].clone()]);
+    let hp = crate::model::misc::label_hash;
+    let payloads = |x: &RType, y: &RType| -> Vec<RType> {
+        vec![
+            x.clone(),
+            y.clone(),
+            RType::vec(x.clone()),
+            RType::opt(RType::vec(x.clone())),
+            RType::record(vec![(hp("p"), RType::opt(x.clone())), (hp("q"), y.clone())]),
+            RType::record(vec![(hp("p"), RType::opt(RType::vec(x.clone()))), (hp("q"), y.clone())]),
+            RType::record(vec![(hp("p"), RType::opt(RType::record(vec![(hp("x"), x.clone())]))), (hp("q"), y.clone())]),
+            RType::variant(vec![(hp("p"), RType::opt(y.clone())), (hp("q"), x.clone())]),
+        ]
+    };
+    let pl = payloads(&a, &b);
+    let nargs = 1 + rng.usize(4);
+    let vg = ValGen::new(&wenv);
+    let mut fuel = 25i64;
+    let (mut wts, mut ets, mut vals) = (Vec::new(), Vec::new(), Vec::new());
+    for _ in 0..nargs {
+        let j = rng.usize(pl.len());
+        let je = if rng.chance(4, 5) { j } else { rng.usize(pl.len()) };
+        let form = rng.below(4);
+        let build = |p: &RType| -> RType {
+            match form {
+                0 => p.clone(),
+                1 => RType::func(vec![], vec![p.clone()], vec![]),
+                2 => RType::func(vec![p.clone()], vec![], vec![Mode::Query]),
+                _ => RType::service(vec![("m".into(), RType::func(vec![], vec![p.clone()], vec![]))]),
+            }
+        };
+        let (mut wt, mut et) = (build(&pl[j]), build(&pl[je]));
+        if rng.bool() {
+            wt = RType::opt(wt);
+            et = RType::opt(et);
+        } else if rng.chance(1, 4) {
+            et = RType::opt(et);
+        }
+        if !encodable(&wenv, &wt) {
+            continue;
+        }
+        let Some(v) = vg.gen(rng, &wt, &mut fuel) else { continue };
+        wts.push(wt);
+        ets.push(et);
+        vals.push(v);
+    }
+    if wts.is_empty() {
+        ctx.count("skipped:unencodable");
+        return;
+    }
+    let opts = EncOpts::default();
+    let Ok(bytes) = encode(&wenv, &wts, &vals, &opts, Some(rng)) else {
+        ctx.count("skipped:unencodable");
+        return;
+    };
+    ctx.count("cover:small-scope-message");
+    let wc = WireCase { env: wenv, types: wts, values: vals, bytes, opts };
+    judge_case(ctx, rng, wc, eenv, ets, ExpectKind::Mixed, false);
+}
+
+fn judge_case(ctx: &mut Ctx, rng: &mut Rng, wc: WireCase, eenv: REnv, ets: Vec<RType>, kind: ExpectKind, mutate: bool) {
     let names = if rng.chance(1, 4) {
         gen_names(rng, &eenv, &ets)
     } else {
@@ -223,6 +298,7 @@ pub fn one_case(ctx: &mut Ctx, rng: &mut Rng, cfg: &TypeCfg, mutate: bool) {
 
 pub fn run(ctx: &mut Ctx) {
     let cfg = TypeCfg::default();
-    ctx.cases("valid-messages", 0.6, |ctx, rng| one_case(ctx, rng, &cfg, false));
-    ctx.cases("mutated-messages", 0.4, |ctx, rng| one_case(ctx, rng, &cfg, true));
+    ctx.cases("valid-messages", 0.5, |ctx, rng| one_case(ctx, rng, &cfg, false));
+    ctx.cases("mutated-messages", 0.3, |ctx, rng| one_case(ctx, rng, &cfg, true));
+    ctx.cases("small-scope-recursive-pairs", 0.2, small_scope_case);
 }
